@@ -20,6 +20,11 @@ pub broadcast axiom fn axiom_digest_len_keccak(b: Seq<u8>) ensures #[trigger] ke
 pub broadcast axiom fn axiom_digest_len_blake(b: Seq<u8>) ensures #[trigger] blake2s256(b).len() == 32;
 pub broadcast group group_digest_len { axiom_digest_len_keccak, axiom_digest_len_blake }
 
+// ---- the field-valued hashes return field elements (opt-in) ---------------------------
+pub broadcast axiom fn axiom_poseidon_many_range(s: Seq<nat>) ensures #[trigger] poseidon_many(s) < P;
+pub broadcast axiom fn axiom_poseidon2_range(a: nat, b: nat) ensures #[trigger] poseidon2(a, b) < P;
+pub broadcast axiom fn axiom_pedersen_range(a: nat, b: nat) ensures #[trigger] pedersen(a, b) < P;
+
 // ---- idealised collision resistance (opt-in) --------------------------------------
 pub broadcast axiom fn axiom_poseidon2_inj(a: nat, b: nat, c: nat, d: nat)
     requires #[trigger] poseidon2(a, b) == #[trigger] poseidon2(c, d)
